@@ -87,8 +87,8 @@ FAULT_FILES = ["corealg/multifunction.py", "algorithms/transformer.py"]
 class C20(Scenario):
     pid = "C20"
     arms = {
-        "quick": [("uniform", 5), ("late-handler", 3), ("faulted-init", 2), ("real-algs", 3)],
-        "thorough": [("uniform", 5), ("late-handler", 3), ("faulted-init", 3), ("real-algs", 4), ("long", 2)],
+        "quick": [("uniform", 5), ("late-handler", 3), ("late-family", 4), ("faulted-init", 2), ("real-algs", 3)],
+        "thorough": [("uniform", 5), ("late-handler", 3), ("late-family", 4), ("faulted-init", 3), ("real-algs", 4), ("long", 2)],
     }
     runs = {"quick": 2500, "thorough": 40000}
     wall = {"quick": 70, "thorough": 900}
@@ -145,15 +145,32 @@ class C20(Scenario):
             }[base]
 
         max_types = 6 if arm != "long" else 12
+        # "late-family": algorithm classes are defined and used first, then a burst of
+        # registrations (mostly chains deriving from the previous late type) with no
+        # algorithm use in between, then the new types are exercised
+        phases = None
+        if arm == "late-family":
+            a = rng.randint(3, 8)
+            b = a + rng.randint(2, 5)
+            phases = (a, b)
+            n_target = max(n_target, b + 8)
         while len(units) < n_target:
-            k = rng.choices(kinds, [w[x] for x in kinds])[0]
+            if phases is not None:
+                if len(units) < phases[0]:
+                    k = rng.choices(["defalg", "mkalg", "apply"], [3, 3, 1])[0]
+                elif len(units) < phases[1] and len(types) < max_types:
+                    k = "regtype"
+                else:
+                    k = rng.choices(["newexpr", "apply", "mkalg", "applyreal"], [4, 7, 1, 1])[0]
+            else:
+                k = rng.choices(kinds, [w[x] for x in kinds])[0]
             if k == "regtype":
                 if len(types) >= max_types:
                     continue
                 tnum += 1
                 name = f"New{tnum}"
-                if types and rng.random() < 0.3:
-                    base = ["$", rng.choice(types)[0]]
+                if types and rng.random() < (0.3 if arm != "late-family" else 0.7):
+                    base = ["$", (types[-1] if arm == "late-family" and rng.random() < 0.7 else rng.choice(types))[0]]
                 else:
                     base = rng.choice(TYPE_BASES)
                 abstract = rng.random() < 0.15
@@ -217,8 +234,8 @@ class C20(Scenario):
                 for _ in range(rng.randint(0, 5)):
                     hs[rng.choice(OLD_HANDLERS)] = rng.choice(["post", "post", "pre"])
                 # handlers named after new types: registered already, or still to come
-                hi = tnum + (3 if arm == "late-handler" else 1)
-                for _ in range(rng.randint(0, 3) + (2 if arm == "late-handler" else 0)):
+                hi = tnum + (3 if arm in ("late-handler", "late-family") else 1)
+                for _ in range(rng.randint(0, 3) + (2 if arm in ("late-handler", "late-family") else 0)):
                     j = rng.randint(1, max(1, hi))
                     hs[f"new{j}"] = rng.choice(["post", "post", "pre"])
                 name = f"Alg{len(classes)}"
